@@ -110,7 +110,7 @@ func (c *timeSignal) SetPTS(value gots.PTS) {
 
 // Data returns the bytes of this splice command.
 func (c *spliceInsert) Data() []byte {
-	bytes := make([]byte, 6)
+	bytes := make([]byte, 5, 6)
 	bytes[0] = byte(c.eventID >> 24)
 	bytes[1] = byte(c.eventID >> 16)
 	bytes[2] = byte(c.eventID >> 8)
@@ -120,9 +120,10 @@ func (c *spliceInsert) Data() []byte {
 
 	if c.eventCancelIndicator {
 		bytes[4] |= 0x80
+		return bytes // nothing follows the cancel indicator of a cancelled event
 	}
 
-	bytes[5] = 0x0F // reserved
+	bytes = append(bytes, 0x0F) // reserved
 
 	if c.outOfNetworkIndicator {
 		bytes[5] |= 0x80
